@@ -2,6 +2,30 @@
 From SV Require Import Base Regex Tree IR Lit Inputs Match.
 Local Open Scope bool_scope.
 
+(* normalize_value: total except for undecodable bytes *)
+Definition no_bad_bytes (v : pyval) : bool :=
+  match v with
+  | PBytes None => false
+  | PList items _ => forallb (fun i => match i with PBytes None => false | _ => true end) items
+  | _ => true
+  end.
+Lemma norm_item_total i : (match i with PBytes None => false | _ => true end) = true -> exists s, norm_item i = Ok s.
+Proof. destruct i as [s| |[s|]|l r|r]; intros H; try discriminate; eexists; reflexivity. Qed.
+Lemma map_res_total items : forallb (fun i => match i with PBytes None => false | _ => true end) items = true ->
+  exists l, map_res norm_item items = Ok l.
+Proof.
+  induction items as [|i items IH]; intros H; [eexists; reflexivity|].
+  cbn [forallb] in H. apply andb_true_iff in H as [H1 H2].
+  destruct (norm_item_total i H1) as [s Hs]. destruct (IH H2) as [l Hl].
+  exists (s :: l). cbn [map_res]. rewrite Hs, Hl. reflexivity.
+Qed.
+Lemma normalize_value_total v : no_bad_bytes v = true -> exists x, normalize_value v = Ok x.
+Proof.
+  destruct v as [s| |[s|]|items r|r]; intros H; try discriminate; try (eexists; reflexivity).
+  cbn [no_bad_bytes] in H. destruct (map_res_total items H) as [l Hl].
+  exists (inr l). cbn [normalize_value]. rewrite Hl. reflexivity.
+Qed.
+
 Inductive sublist {A} : list A -> list A -> Prop :=
 | sl_nil : forall l, sublist [] l
 | sl_keep : forall x r l, sublist r l -> sublist (x :: r) (x :: l)
